@@ -126,6 +126,17 @@ def handle (j : Json) : Except String Json := do
   | "nests" =>
     let cs ← intList (← j.getObjVal? "choice_set")
     let nests ← (← getArr j "nests").toList.mapM intList
+    match j.getObjVal? "names" with
+    | .ok v =>
+      -- named nests: a name or null (unnamed) per nest
+      let names ← (← asArr v).toList.mapM fun x => match x with
+        | Json.null => pure (none : Option String)
+        | y => (asStr y).map some
+      if names.length != nests.length then throw "names/nests" else
+      let ns : List NamedNest := (names.zip nests).map fun (n, a) => { name := n, alts := a }
+      pure (Json.mkObj [("verdict", jStr (nestVerdictStr (nestAuditNamed cs ns))),
+                        ("names", jStrs ((assignNames 1 ns).map (·.1)))])
+    | .error _ =>
     pure (Json.mkObj [("verdict", jStr (nestVerdictStr (nestAudit cs nests)))])
   | "session" =>
     -- a history on the same objects: verdict of every evaluation, in order
